@@ -412,6 +412,21 @@ makeNewXMLTranscoder(const  XMLCh* const            encodingName
     ArrayJanitor<UChar> janTmp(tmpName, manager);
     ArrayJanitor<XMLCh> janTmp1(workBuffer, manager);
 
+    //
+    //  ucnv_openU() converts the name to the default code page in a fixed
+    //  size buffer on its stack and only limits the number of UTF-16 units,
+    //  so a name with non-ASCII characters (each becomes up to three bytes)
+    //  overruns that buffer. No converter has such a name: refuse it here.
+    //
+    for (const UChar* namePtr = actualName; *namePtr; namePtr++)
+    {
+        if (*namePtr >= 0x80)
+        {
+            resValue = XMLTransService::UnsupportedEncoding;
+            return 0;
+        }
+    }
+
     UErrorCode uerr = U_ZERO_ERROR;
     UConverter* converter = ucnv_openU(actualName, &uerr);
     if (!converter)
